@@ -17,49 +17,6 @@ import (
 // token that cannot continue the grammar and a semantic error must lie within the module-scope
 // declaration that contains the offending construct.
 
-const zzRuleBase = `struct ZS { a: i32, b: i32 }
-var<private> zs: ZS;
-@group(0) @binding(0) var<storage, read_write> buf: array<i32, 8>;
-@must_use fn mu(x: i32) -> i32 { return x + 1; }
-fn leaf(x: i32) -> i32 { return x * 2; }
-fn vleaf(x: vec2<i32>) -> i32 { return x.x; }
-fn aleaf(x: array<i32, 2>) -> i32 { return x[0]; }
-struct ZT { q: i32 }
-fn sleaf(x: ZS) -> i32 { return x.a; }
-const zcs = ZS(1, 2);
-var<private> zarr: array<i32, 4>;
-fn helper(x: i32) -> i32 {
-  var acc = x;
-  /*S3*/
-  return acc;
-}
-const zc0: i32 = /*E0*/ 4;
-@compute @workgroup_size(1) fn main() {
-  var i = 0;
-  /*S0*/
-  loop {
-    if i > 3 {
-      /*S1*/
-      break;
-    } else {
-      /*S6*/
-    }
-    continuing {
-      i = i + 1;
-      /*S2*/
-    }
-  }
-  switch i {
-    case 1: { /*S4*/ }
-    default: { }
-  }
-  { { /*S5*/ } }
-  buf[0] = max(/*E1*/ helper(i), 1) + zc0;
-}
-@group(0) @binding(1) var<uniform> uni: vec4<i32>;
-@compute @workgroup_size(2) fn second() { buf[1] = uni.x; }
-`
-
 type zzRule struct {
 	name, text string
 	syntaxAt   int // >= 0: a syntax error whose offending token starts at this offset of text; -2: the token after text
